@@ -211,7 +211,7 @@ def run(ctx):
             continue
         ctx.bad("C20.2", f"{QS}.cell_to_children to resolution {b} raises: its length cannot equal get_num_children", wc,
                 f"parent resolutions {sorted(lst)}; get_num_children(a, {b}) promises a positive count")
-    ctx.floors.append(("resolution pairs compared", len(lens), 400))
+    ctx.floor("resolution pairs compared", len(lens), 400, soft=True)
     nzero = 0
     for a in range(-1, MAX + 1):
         for b in range(-1, a):
